@@ -203,6 +203,7 @@ def c07_cfgs(tier):
                   dict(n=1000000, variant=0, trigger=1, **base),      # camera waiting for a software trigger
                   dict(n=1000000, variant=0, **full),                 # ring full, source asleep
                   dict(n=1000000, variant=0, avg=2, **base),          # averaging active
+                  dict(n=1000000, variant=0, avg=2, trigger=1, **base),   # averaging active and the camera waiting for a software trigger (the source feeds the filter ring, not the sink ring)
                   dict(n=1000000, variant=1, prog='mH', **base),      # client holds a mapped region across its own abort
                   dict(n=1000000, variant=1, prog='mL', **base),      # ... and hands it back only after the follow-up acquisition has started
                   dict(n=3, variant=0, ctl_stop=1, **base),           # stop from another thread on a finite acquisition
@@ -230,6 +231,11 @@ def c09_cfgs(tier):
           cfg('c09', 'D2', storefail=1, end_abort=0, ringf=1, ringx=1, append_ms=30, **base),
           cfg('c09', 1, storefail=0, end_abort=0, ringf=2, ringx=8, **{**base, 'n': 2}),
           cfg('c09', 1, camfail=1, end_abort=0, ringf=2, ringx=8, **{**base, 'n': 2})]
+    # averaging: two rings in series; slow storage fails while the filter is asleep on the full sink ring and the source on the full filter ring
+    for end in (0, 1):
+        q.append(cfg('c09', 'D2', storefail=0, end_abort=end, avg=2, ringf=1, ringx=1, fringf=1, fringx=1, append_ms=60, wait_ms=40, exposure=4, n=12))
+        q.append(cfg('c09', 'D1', storefail=1, end_abort=end, avg=2, ringf=1, ringx=1, fringf=1, fringx=1, append_ms=60, wait_ms=40, exposure=4, n=12))
+    q.append(cfg('c09', 'D2', camfail=3, end_abort=0, avg=2, ringf=2, ringx=8, fringf=2, fringx=8, exposure=4, n=8))
     if tier == 'quick':
         return q
     t = list(q)
@@ -288,7 +294,8 @@ def c08_programs(depth):
 def c08_cfgs(tier):
     if tier == 'quick':
         progs = c08_programs(3) + ['AsSBsS', 'AsBsS', 'AsAS', 'AsaXAsS', 'AsmSu', 'AssS', 'AsXAs', 'ABsSa', 'AsSsa', 'Asmau', 'AstS', 'AsCS', 'AsDS', 'AsCsS', 'AsDsS', 'CsAS', 'AswCS',
-                                   'FsAS', 'FswAS', 'AsFS', 'AswFwS', 'FsS', 'AsRS', 'AsRsS', 'RsS', 'AsRwsS', 'AsRa']
+                                   'FsAS', 'FswAS', 'AsFS', 'AswFwS', 'FsS', 'AsRS', 'AsRsS', 'RsS', 'AsRwsS', 'AsRa',
+                                   'EswgS', 'Eswwg', 'Esga', 'EswgsS', 'EswSAsS']
         c = [cfg('c08', 'D1', prog=p) for p in progs]
         c += [cfg('c08', 0, prog=p) for p in ('AsS', 'Asa', 'AsBS', 'AsAS', 'AsSsS', 'AsaAsS')]
         c += [cfg('c08', 'D2', prog=p) for p in ('AsS', 'Asa', 'AsBS', 'AsAS', 'AsCS', 'AsDS', 'AsXAsS', 'AsmSu', '2sa', '2sSA', 'FswAS', 'AswFwS', 'AsRsS')]
